@@ -29,7 +29,7 @@ FEATURES = {
     "lay": ["tight", "space", "nl", "nl0", "blockc", "linec", "tabs", "exotic"],
     "pre": ["bol", "indent", "brace", "semi", "arrow", "closure", "call", "stmt", "strlit", "charlit", "eq",
             "uni_indent", "kw_return", "kw_break", "ident_comment", "in_format_arg", "in_macro_block"],
-    "post": ["semi", "paren", "comma", "brace", "eof"],
+    "post": ["semi", "paren", "comma", "brace", "eof", "semi_str"],
     "ref": ["none", "valid", "nearmiss"],
     # layout between the macro name, the `!` and the opening bracket (same token sequence for rustc and for the grammar)
     "bang": ["tight", "tight", "tight", "sp", "cm", "sp_after", "nl", "both"],
@@ -270,7 +270,7 @@ def pre_text(cls, rnd, eol):
 
 
 def post_text(cls, rnd, eol):
-    return {"semi": ";", "paren": ");", "comma": ",", "brace": " }", "eof": ""}[cls]
+    return {"semi": ";", "paren": ");", "comma": ",", "brace": " }", "eof": "", "semi_str": '; "ok"'}[cls]
 
 
 # ----------------------------------------------------------------------------- decoys (C11)
